@@ -129,6 +129,13 @@ def r2_r4(ctx):
             # ascending: this guard must be evaluated on the false side of the previous one
             if last_false is not None and c.switch_bb not in b.reach_from(last_false):
                 probs.append("guards are not evaluated in ascending order")
+            if side == "signed" and "num::abs(" in c.lhs:
+                # a signed type holds [-(X_MAX + 1), X_MAX]: the lower bound enters the amplitude as |min + 1|
+                import re as _re
+                m = _re.search(r"num::abs\((.*?)\)[,)]", c.lhs)
+                if not m or "Add 1" not in m.group(1):
+                    probs.append("the amplitude of the lower bound is `%s`, not |min + 1|: -(X_MAX + 1) would be pushed to the next "
+                                 "wider type (and i64::MIN overflows abs)" % (m.group(0) if m else c.lhs)[:80])
             if probs:
                 ctx.fail(r2, key, "; ".join(probs), c.loc, detail)
             else:
